@@ -39,3 +39,59 @@ def string_list_literals(fn, min_len=2):
 
 def dict_keys_values(d):
     return {k.value: v for k, v in zip(d.keys, d.values) if isinstance(k, ast.Constant)}
+
+
+def nsp_order_table(ctx):
+    """{order key: set of literal prefixes its format list is sorted by} of _no_spaces_parser.date_formats, read from the dict literal
+    (`"%m%d%y": sorted(self._all, key=lambda x: x.lower().startswith("%m%d%y"), ..)`) or from the loop / comprehension form that builds the
+    same table through a helper (`for order in (<literal orders>): table[order] = self._helper(order)` with a helper that sorts by
+    `.startswith(<its parameter>)`); None when neither form is recognised"""
+    ix = ctx.ix
+    nsp = ix.func("dateparser.parser:_no_spaces_parser.__init__")
+    df = None
+    for n in iter_own_nodes(nsp.node):
+        if isinstance(n, ast.Assign) and any(isinstance(t, ast.Attribute) and t.attr == "date_formats" for t in n.targets):
+            df = n.value
+    if isinstance(df, ast.Dict) and all(isinstance(k, ast.Constant) for k in df.keys):
+        return {k.value: {c.value for c in ast.walk(v) if isinstance(c, ast.Constant) and isinstance(c.value, str) and c.value.startswith("%")}
+                for k, v in zip(df.keys, df.values)}, nsp
+    # loop / comprehension form
+    def helper_sorts_by_param(call):
+        if not (isinstance(call, ast.Call) and isinstance(call.func, ast.Attribute) and isinstance(call.func.value, ast.Name) and call.func.value.id in ("self", "cls")
+                and len(call.args) == 1 and isinstance(call.args[0], ast.Name)):
+            return None
+        h = nsp.cls.find_method(call.func.attr) if nsp.cls else None
+        if h is None:
+            return None
+        p = [a for a in h.params() if a not in ("self", "cls")]
+        t = " ".join(ast.unparse(h.node).split())
+        import re as _re
+        if len(p) == 1 and _re.search(r"\.startswith\(%s\)" % _re.escape(p[0]), t) and "sorted(self._all" in t.replace("cls._all", "self._all") and "reverse=True" in t:
+            return call.args[0].id
+        return None
+    keys = None
+    var = None
+    for n in iter_own_nodes(nsp.node):
+        it, tgt, val = None, None, None
+        if isinstance(n, ast.DictComp) and len(n.generators) == 1 and isinstance(n.key, ast.Name):
+            it, tgt, val = n.generators[0].iter, n.generators[0].target, n.value
+            if not (isinstance(tgt, ast.Name) and tgt.id == n.key.id):
+                continue
+        elif isinstance(n, ast.For) and isinstance(n.target, ast.Name):
+            it, tgt = n.iter, n.target
+            calls = [c for c in ast.walk(n) if isinstance(c, ast.Call) and helper_sorts_by_param(c) == tgt.id]
+            stores = [s_ for s_ in ast.walk(n) if isinstance(s_, ast.Assign) and isinstance(s_.targets[0], ast.Subscript)
+                      and isinstance(s_.targets[0].slice, ast.Name) and s_.targets[0].slice.id == tgt.id]
+            val = calls[0] if calls and stores else None
+        if it is None or val is None:
+            continue
+        try:
+            ks = list(ast.literal_eval(it))
+        except Exception:
+            continue
+        v = helper_sorts_by_param(val) if isinstance(val, ast.Call) else None
+        if v == tgt.id and all(isinstance(k, str) for k in ks):
+            keys, var = ks, v
+    if keys:
+        return {k: {k} for k in keys}, nsp
+    return None, nsp
